@@ -100,6 +100,10 @@ def payload_forms(rnd):
         ("struct-expr-ref", "", "&Foo { a: 1 }", "", rg.N("Foo")),
         ("typed-param", "", "p", "p: Foo", rg.N("Foo")),
         ("typed-param-ref-type", "", "p", "p: &Bar", rg.N("Bar")),
+        # the typed parameter comes after parameters that are patterns (a destructured tuple, a wildcard, a struct pattern)
+        ("typed-param-after-tuple-pattern-param", "", "p", "(lo, hi): (u32, u32), p: Foo", rg.N("Foo")),
+        ("typed-param-after-wildcard-param", "", "&p", "_: u8, p: Bar", rg.N("Bar")),
+        ("typed-param-after-struct-pattern-param", "", "p.clone()", "Foo { a: _first }: Foo, p: Kind", rg.N("Kind")),
         ("typed-param-amp", "", "&p", "p: Bar", rg.N("Bar")),
         ("typed-param-clone", "", "p.clone()", "p: Kind", rg.N("Kind")),
         ("typed-param-vec", "", "p", "p: Vec<Foo>", t_vec),
